@@ -51,19 +51,24 @@ def cutArg (v : Val) (dflt : Int) : Option Int :=
   | .list _ => some dflt
   | .str _ => none
 
-/-- substring(start, end?) as `StringValueSubstring.Call` (with fix C15-substring-swap) -/
+/-- the clamping of `StringValueSubstring.Call` (with fix C15-substring-swap):
+both ends into `0..len`, then `if start > end { start, end = end, start }` -/
+def cutBounds (len start stop : Int) : Int × Int :=
+  let start := if start < 0 then 0 else start
+  let start := if start > len then len else start
+  let stop := if stop < 0 then 0 else stop
+  let stop := if stop > len then len else stop
+  if start > stop then (stop, start) else (start, stop)
+
+/-- substring(start, end?) -/
 def substring (s : List Char) (args : List Val) : SRes :=
   let src := utf8 s
   let len : Int := src.length
   match cutArg (slot args 0) 0, cutArg (slot args 1) len with
   | some start, some stop =>
-    let start := if start < 0 then 0 else start
-    let start := if start > len then len else start
-    let stop := if stop < 0 then 0 else stop
-    let stop := if stop > len then len else stop
-    let (start, stop) := if start > stop then (stop, start) else (start, stop)
-    if 0 ≤ start ∧ start ≤ stop ∧ stop ≤ len then
-      .bytes ((src.drop start.toNat).take (stop - start).toNat)      -- s.source[start:end]
+    let p := cutBounds len start stop
+    if 0 ≤ p.1 ∧ p.1 ≤ p.2 ∧ p.2 ≤ len then
+      .bytes ((src.drop p.1.toNat).take (p.2 - p.1).toNat)      -- s.source[start:end]
     else .crash
   | _, _ => .unsupported
 
